@@ -2233,6 +2233,12 @@ class Builder:
         loop_register: Optional[Union[operand.Register, str]] = None,
     ) -> None:
         """Build commands for looping the code in the specified body."""
+        if loop_register is not None:
+            # An application may only name a register that is not in use: otherwise the
+            # loop counter would overwrite the live value of an enclosing operation.
+            register = self._loop_get_register(loop_register)
+            if self._mem_mgr.is_register_active(register):
+                raise ValueError(f"Register {register} is already in use")
         self._build_cmds_loop_body(body, stop, start, step, loop_register)
 
     def sdk_if_eq(self, op0: T_CValue, op1: T_CValue, body: T_BranchRoutine) -> None:
